@@ -477,6 +477,9 @@ def run(ctx):
     w7_decoders(ctx, W)
     from . import widths as wd
     wd.rule_w5(ctx, W)
+    if ctx.tier == 'thorough':
+        from .. import witness
+        witness.c20_layout_witness(ctx)
     ctx.sample({'word': 'st0', 'slots': [(s['pos'], s['len'], s['kind'], s['targets']) for s in W['st0']['slots']]})
     ctx.sample({'word': 'ar0', 'slots': [(s['pos'], s['len'], s['kind'], s['targets']) for s in W['ar0']['slots']]})
     ctx.assumptions += ['tables/c20_layout.json is the architectural reference (pinned hardware-validated upstream layout)']
